@@ -108,6 +108,16 @@ PROPS = {
             "remote timestamps never tie with local detection stamps (ties are decided by C01/C02)",
         ],
     },
+    "C12": {
+        "level": "exploration",
+        "tests": [T("TestC12Cleaner", "recv", 20000, 3200000, shards=16)],
+        "assumptions": [
+            "names of one instance appear in timestamp order and never re-appear after deletion (the property's stated domain)",
+            "merge-commit notifications are monotone per instance, as the sync loop produces them",
+            "'eventually removed' is decided in bounded form: two further fault-free runs more than must_keep_interval apart leave at most one file per instance",
+            "the receive-only clause (no Store/Delete at all) needs a Syncer and is checked with the scheduler harness in the fleet package",
+        ],
+    },
     "C13": {
         "level": "exploration",
         "tests": [T("TestC13Sweeper", "kv", 1500, 96000, shards=16)],
